@@ -3,6 +3,7 @@
 from __future__ import annotations
 
 from asyncio import (
+    CancelledError,
     Event,
     Future,
     Queue,
@@ -127,7 +128,16 @@ class StreamItemQueue:
             pending_futures = self._pending_futures
             pending_futures.add(result)
             result.add_done_callback(pending_futures.discard)
-        await self._entries.put(result)
+        try:
+            await self._entries.put(result)
+        except CancelledError:
+            # The producer has been cancelled while it was parked on the full
+            # queue, so this result cannot be delivered any more.
+            cancel_awaitables: list[Awaitable[Any]] = []
+            self._discard_entry(result, None, cancel_awaitables)
+            if cancel_awaitables:
+                await gather(*cancel_awaitables, return_exceptions=True)
+            raise
 
     async def batches(self) -> AsyncIterator[Sequence[WorkResult]]:
         """Iterate over the batches of settled stream item results in order.
@@ -235,13 +245,22 @@ class StreamItemQueue:
                     entry = entries.get_nowait()
                 except QueueEmpty:
                     break
-            if isfuture(entry):
-                # also retrieve the exception of a failed item future
-                if not entry.done() or entry.cancelled() or entry.exception():
-                    continue
-                entry = entry.result()
-            if entry is not _END and not isinstance(entry, _ErrorEntry):
-                cancel_work(entry.work, reason, cancel_awaitables)
+            self._discard_entry(entry, reason, cancel_awaitables)
+
+    @staticmethod
+    def _discard_entry(
+        entry: Any,
+        reason: BaseException | None,
+        cancel_awaitables: list[Awaitable[Any]],
+    ) -> None:
+        """Discard an undelivered entry, cancelling the work it has produced."""
+        if isfuture(entry):
+            # also retrieve the exception of a failed item future
+            if not entry.done() or entry.cancelled() or entry.exception():
+                return
+            entry = entry.result()
+        if entry is not _END and not isinstance(entry, _ErrorEntry):
+            cancel_work(entry.work, reason, cancel_awaitables)
 
     def _abort(self, reason: BaseException | None = None) -> Awaitable[None] | None:
         """Cancel the producer and the pending item futures and clean up."""
